@@ -113,6 +113,23 @@ def simulate(L, K, lines, thrown=()):
                 raise Invalid("payload beyond budget")
             v.elems.append(tup)
             touched = [a[0]]
+        elif op == "emplaceat":
+            # emplace(position, args...): an ordinary insert (lists without VaryingSize parameter)
+            v = slots[a[0]]
+            tup = parse_emplace(L, a[2:])
+            if v.null or v.moved or len(v.elems) >= v.cap or not (0 <= a[1] <= len(v.elems)) or lay.has_varying(L):
+                raise Invalid("emplace(position) beyond capacity / out of range")
+            fi = 0
+            for k, p in enumerate(L):
+                if p.kind == lay.FIXED:
+                    if len(tup[k]) != v.fixed[fi]:
+                        raise Invalid("fixed size mismatch")
+                    fi += 1
+                if p.kind == lay.PLAIN and len(tup[k]) != 1:
+                    raise Invalid("plain count")
+            v.elems.insert(a[1], tup)
+            res = a[1]
+            touched = [a[0]]
         elif op == "popback":
             v = slots[a[0]]
             if v.null or not v.elems:
@@ -554,12 +571,16 @@ def check(prop, L, K, lines, il, expect=None):
     observation lines `il` of script `lines`"""
     v = []
     steps, markers = parse_obs(il)
+    where = {}
+    for i, st in enumerate(steps):
+        for m in st["markers"]:
+            where.setdefault(m, i)
     for m in markers:
         if m.startswith("CRASH") or m.startswith("EXIT") or m.startswith("TERMINATE"):
-            v.append("implementation ended abnormally: " + m)
+            v.append("implementation ended abnormally: " + m + (" (in step %d)" % (len(steps) - 1) if steps else ""))
         for key, props in MARKER_PROPS.items():
             if m.startswith(key) and prop in props:
-                v.append("marker: " + m)
+                v.append("marker: " + m + (" (in step %d)" % where[m] if m in where else ""))
     thrown = set()
     n = -1
     for l in il:
@@ -1353,6 +1374,34 @@ def move_assign_units_key(prop, v):
 KEYS["move-assign-units"] = move_assign_units_key
 
 
+def emplace_position_scratch_key(prop, v):
+    """C02: emplace(position, args...) shifts the elements through the bytes BEHIND data_end():
+    it needs room for one element more than the vector holds afterwards.  Explains an
+    out-of-block access (guard zone, fence page) in a step that is an emplace(position) after
+    which the vector is full, on a list without VaryingSize parameter - and nothing earlier"""
+    L = v["L"]
+    if lay.has_varying(L) or not v.get("script"):
+        return False
+    texts = (v.get("oracle") or []) + [v["detail"]]
+    if not any(("GUARD" in x or "ended abnormally: CRASH SIGSEGV" in x) for x in texts):
+        return False
+    steps = [int(mm.group(1)) for x in texts for mm in [re.search(r"\(in step (\d+)\)", x) or re.match(r"step (\d+)", x)] if mm]
+    if not steps:
+        return False
+    try:
+        spec = simulate(L, v["K"], v["script"])
+    except Exception:
+        return False
+    i = min(steps)
+    if i >= len(spec) or spec[i]["op"] != "emplaceat":
+        return False
+    after = spec[i]["slots"].get(spec[i]["args"][0])
+    return after is not None and len(after.elems) == after.cap
+
+
+KEYS["emplace-position-scratch"] = emplace_position_scratch_key
+
+
 def less_product_order_key(prop, v):
     """C14: element-level < is the conjunction of < over the compared runs/fields (a strict
     partial order); std::lexicographical_compare over it is not transitive.  Explains a
@@ -1369,7 +1418,7 @@ KEYS["less-product-order"] = less_product_order_key
 # findings the model carries exactly: a violation only counts as that finding when the model
 # predicts the very same observations (modulo alarm lines) - a different defect at the same
 # call site changes what the implementation does and is reported as a violation
-MODEL_CARRIES = {"needed-tail-after-varying", "move-assign-units", "less-product-order"}
+MODEL_CARRIES = {"needed-tail-after-varying", "move-assign-units", "less-product-order", "emplace-position-scratch"}
 
 
 def known_key(prop, v, known):
